@@ -459,6 +459,9 @@ btreeDelete0(BTree x, BTreeKey k, BTreeElt *pe, BTreeFreeFun btfree)
                 }
         }
         else {
+                /* k is not in the tree: nothing to delete. */
+                if (x->isLeaf) return;
+
                 if (x->part[i].branch->nKeys == t - 1) {
                         /* Make node x->part[i].branch have enough keys. */
                         if (i<x->nKeys && x->part[i+1].branch->nKeys>t-1)
